@@ -5,6 +5,7 @@ import os
 
 from sa.prog import op_place as A_op_place
 from sa import algebra as A
+from sa import hirq
 
 SPEC = os.path.join(os.path.dirname(os.path.dirname(os.path.abspath(__file__))), "spec", "geometry_algebra.json")
 
@@ -151,6 +152,14 @@ def check(prog, chk, pid, floor=None):
                 key = f"{short}:{part}{':' + comp if comp else ''}"
                 if w is None:
                     chk.bad("A17.algebra", key, b.where(), f"{short}: the code has a case `{comp}` ({A.canon(g)}) the reference algebra does not define")
+                    continue
+                bare_ = set()
+                _bare_names(g, bare_)
+                h_ = ev.by_path.get(path)
+                lets_ = {q.get("name") for st_ in (hirq.exprs(h_["body"], "Let") if h_ else ()) for q in hirq.walk(st_["pat"]) if isinstance(q, dict) and q.get("p") == "bind"}
+                if not A.equal(g, w) and (bare_ & lets_):
+                    # the value names a `let` of the function itself: the evaluator did not see what it was given
+                    chk.undecided("A17.algebra", key, b.where(), f"{short} {comp or part}: the value rests on the local(s) {sorted(bare_ & lets_)} whose definition the affine evaluator could not follow ({A.canon(g)[:120]}); no verdict against the reference algebra")
                     continue
                 if not A.equal(g, w) and (not _definite(g) or ev.incomplete):
                     chk.undecided("A17.algebra", key, b.where(), f"{short} {comp or part}: the affine evaluator could not follow the code to a definite value ({A.canon(g)[:120]}); no verdict against the reference {A.canon(w)[:120]}")
